@@ -25,6 +25,7 @@ func init() {
 const scPkg = "sharedcache"
 
 func runC16(c *Ctx) {
+	c.notExistMeansAbsent("Y22")
 	c.entryPathJoinsTheKeyItself()
 	c.rule("Y1", "ILock typestate: release only while held (explicit or deferred), at most once per acquisition, and no exit while held without a pending release", 2)
 	c.rule("Y2", "SharedMutableCacheRepository: TransferFiles / unpackPackageToLocalDestination are called only while the entry lock is held", 2)
